@@ -16,6 +16,7 @@ type WebSocketPool struct {
 	maxIdle     int
 	maxActive   int
 	idleTimeout time.Duration
+	closed      bool // set by Shutdown
 }
 
 // connPool holds connections for a specific backend
@@ -25,6 +26,7 @@ type connPool struct {
 	active      int
 	mu          sync.Mutex
 	idleTimeout time.Duration
+	closed      bool // set by Shutdown: connections are no longer accepted
 }
 
 // pooledConn wraps a connection with metadata
@@ -88,6 +90,11 @@ func (p *WebSocketPool) Put(backend string, conn net.Conn) bool {
 	}
 
 	p.mu.Lock()
+	if p.closed {
+		p.mu.Unlock()
+		_ = conn.Close()
+		return false
+	}
 	pool, exists := p.pools[backend]
 	if !exists {
 		pool = &connPool{
@@ -105,6 +112,12 @@ func (p *WebSocketPool) Put(backend string, conn net.Conn) bool {
 
 	if pool.active > 0 {
 		pool.active--
+	}
+
+	// The pool was shut down after this Put looked it up
+	if pool.closed {
+		_ = conn.Close()
+		return false
 	}
 
 	// Don't exceed max idle connections
@@ -241,6 +254,7 @@ func (p *WebSocketPool) Shutdown() {
 			_ = pc.conn.Close() // Best effort close, ignore error
 		}
 		pool.idle = nil
+		pool.closed = true
 		pool.mu.Unlock()
 
 		logging.L().Info().
@@ -249,4 +263,5 @@ func (p *WebSocketPool) Shutdown() {
 	}
 
 	p.pools = make(map[string]*connPool)
+	p.closed = true
 }
